@@ -9,9 +9,9 @@
           runBTR r σ  agrees with  X86.step i st   on every register, flag, memory byte and the next address
 
   WHAT IS PROVED HERE (all of it universal over operand values / register contents / states; nothing is bounded):
-    (A) mirror + theorem, INSTRUCTION LEVEL (`lift_correct_rr/ri/un/rm/mr/mi/lea/setcc/cmov/jcc/test/xchg/extend/push64/pop64`): 64-bit mode,
+    (A) mirror + theorem, INSTRUCTION LEVEL (`lift_correct_rr/ri/un/rm/mr/mi/lea/setcc/cmov/jcc/test/xchg/extend/push64/pop64/ret64/call64`): 64-bit mode,
         {mov add sub cmp and or xor} x (reg,reg | reg,imm | reg,[mem] | [mem],reg | [mem],imm), lea, and
-        {inc dec neg not} x register, setcc r8, cmovcc r,r and jcc rel (14 codes each), test r,r|r,imm, xchg r,r, movzx/movsx/movsxd r,r, push r64, pop r64; memory operands = base + index*scale + disp with 64-bit registers or rip, mapped
+        {inc dec neg not} x register, setcc r8, cmovcc r,r and jcc rel (14 codes each), test r,r|r,imm, xchg r,r, movzx/movsx/movsxd r,r, push r64, pop r64, ret, call rel32 (next address = the loaded value / the target); memory operands = base + index*scale + disp with 64-bit registers or rip, mapped
         and non-wrapping accesses; registers at every operand size and shape — 64-bit, 32-bit (zero-extending), 16-bit, low byte, and the high-byte
         registers ah/ch/dh/bh — every pair of registers (aliasing included), every state: `runBTR` of the mirrored
         `BlockTranslationResult` agrees with `X86.step` on all sixteen general registers, CF ZF SF OF, memory and the
@@ -43,6 +43,7 @@ import FalconProofs.C01.Setcc
 import FalconProofs.C01.Cmov
 import FalconProofs.C01.Misc
 import FalconProofs.C01.Stack
+import FalconProofs.C01.Flow
 
 namespace Falcon.C01.Props
 open Falcon Falcon.X86 Falcon.X86Lift Falcon.Const Falcon.Sem Falcon.C01
@@ -428,6 +429,26 @@ theorem lift_correct_push64 (i : Nat) (hi : i < 16) (addr len : Nat) (haddr : ad
     (hwrap : (st.gpr 4 - 8#64).toNat + 8 ≤ 2 ^ 64) :
     ∃ ops, opsPush64 ⟨i, 64, 0⟩ = .ok ops ∧ AgreesM (straight addr len ops) σ (ins1g "push" addr len ⟨i, 64, 0⟩) st :=
   lift_push64 i hi addr len haddr σ st hok bs hmap hwrap
+
+/-- **lift_correct_ret64**: `ret` — the IL loads eight bytes at `rsp`, adds 8 to `rsp` and branches to the loaded value:
+    the IL run ends with the single successor `natOfLE bs` (the return address read from the stack), `X86.step` does not
+    trap and continues at the same address, and the end states agree (`AgreesTo`); premise: the eight bytes at `rsp`
+    are mapped and do not wrap the address space. -/
+theorem lift_correct_ret64 (addr len : Nat) (σ : State) (st : St) (hok : Abs σ st) (bs : List UInt8)
+    (hmap : st.mem.readBytes (st.gpr 4).toNat 8 = some bs) (hwrap : (st.gpr 4).toNat + 8 ≤ 2 ^ 64) :
+    ∃ ops, opsRet64 addr = .ok ops ∧
+      AgreesTo { addr := addr, length := len, instrs := [oneBlock addr ops], succs := [] } σ (insRet addr len) st (natOfLE bs) :=
+  lift_ret64 addr len σ st hok bs hmap hwrap
+
+/-- **lift_correct_call64**: `call rel32` (absolute target `t` as the decoder reports it) — the IL stores the return
+    address `addr + len` at `rsp - 8`, subtracts 8 from `rsp` and branches to the target: the IL run ends with the single
+    successor `t % 2^64`, `X86.step` continues there, and the end states agree including memory (`Abs` relates the
+    memories); premise: the eight bytes at `rsp - 8` are mapped and do not wrap the address space. -/
+theorem lift_correct_call64 (addr len t bytes : Nat) (haddr : addr + len < 2 ^ 64) (σ : State) (st : St) (hok : Abs σ st)
+    (bs : List UInt8) (hmap : st.mem.readBytes (st.gpr 4 - 8#64).toNat 8 = some bs)
+    (hwrap : (st.gpr 4 - 8#64).toNat + 8 ≤ 2 ^ 64) :
+    ∃ ops, opsCall64 addr len t = .ok ops ∧ AgreesTo (straight addr len ops) σ (insCall addr len t bytes) st (t % 2 ^ 64) :=
+  lift_call64 addr len t bytes haddr σ st hok bs hmap hwrap
 
 /-! ### non-vacuity -/
 
